@@ -39,6 +39,11 @@ def obligations(tier):
                          "each chart dropped at once (freed objects, recycled addresses): every parse identical to the first parse of its text"))
     obs.append(Ob("C11.framing", "CH", "harness.h_chart", "framing", 300, funcs=("chartparse.chart.Chart._partition_lines_by_data_section",),
                   bounds="3 sections x <=2 symbolic body lines of any length (blank lines included): this section's parser receives exactly its own body lines"))
+    obs.append(Ob("C11.lookup_file_scale", "CH", "harness.h_sync2", "lookup_file_scale", 600, funcs=("chartparse.sync.BPMEvents.timestamp_at_tick", "chartparse.sync.BPMEvents._index_of_proximal_event"),
+                  bounds="tempo maps of 50..12000 events (beat-by-beat tempo-mapped songs): a late tick from hint 0, from a near hint, from the exact hint and un-hinted gives one answer; native execution, solver-chosen case"))
+    obs.append(Ob("C11.interpreter_flags", "CH", "harness.h_hist", "hash_seed_free", 900, {"VF_HIST": 1},
+                  funcs=("chartparse.chart.Chart.from_file (whole pipeline, native execution)",),
+                  bounds="the corpus (unsorted sections that must be rejected included) parsed in fresh interpreters started with other hash seeds and with -O: same outcome as the reference interpreter"))
     return obs
 
 LEVEL_TEXT = ("Bounded symbolic execution (CrossHair/z3) of the real lookup and constructor code: for every "
